@@ -176,6 +176,7 @@ fn gen_w(ch: &mut Choices, depth: u32, ndefs: usize, budget: &mut u64) -> Vec<W>
     v
 }
 
+#[derive(Clone)]
 struct Workload {
     src_defs: String,
     body: String,
@@ -268,6 +269,96 @@ fn run_ticks(w: &Workload, place: Place, budget: Option<u64>, cancel_at: Option<
         }
         (res, e, t, probe_ok)
     })
+}
+
+/// One evaluator reused over several rounds: every round but the last is ended by a cancellation request raised when
+/// its k-th emit runs (an error produced by the periodic check); the last round is either cancelled the same way or
+/// runs under a tick budget set just before it (B = ticks so far + T + delta). Limits must be honoured in EVERY round
+/// exactly as on a fresh evaluator: "after any of these errors the evaluator is reusable".
+fn run_reuse(ws: &[Workload], ks: &[u64], last_budget_delta: Option<i64>, r: &mut CaseResult) {
+    Module::with_temp_heap(|module| {
+        let mut eval = Evaluator::new(&module);
+        let threshold: Rc<Cell<Option<u64>>> = Rc::new(Cell::new(None));
+        let flag = Rc::new(Cell::new(false));
+        {
+            let (t2, f2) = (threshold.clone(), flag.clone());
+            eval.set_check_cancelled(Box::new(move || {
+                if let Some(k) = t2.get() {
+                    if sl::emit_count() >= k {
+                        f2.set(true);
+                    }
+                }
+                f2.get()
+            }));
+        }
+        let n = ws.len();
+        for (i, w) in ws.iter().enumerate() {
+            let src = format!("{}{}", w.src_defs, w.body);
+            let ast = match sl::parse(&format!("round{i}.star"), &src, &sl::dialect_all()) {
+                Ok(a) => a,
+                Err(e) => {
+                    r.fail("generator-bug", format!("parse {e}"));
+                    return;
+                }
+            };
+            sl::tx_reset();
+            flag.set(false);
+            let t0 = eval.get_total_tick_count();
+            let last = i + 1 == n;
+            let budget = if last { last_budget_delta.map(|d| ((t0 + w.t) as i64 + d).max(1) as u64) } else { None };
+            if let Some(b) = budget {
+                threshold.set(None);
+                if eval.set_max_tick_count(b).is_err() {
+                    r.fail("generator-bug", "tick budget set twice".into());
+                }
+            } else {
+                threshold.set(Some(ks[i]));
+            }
+            let res = eval.eval_module(ast, sl::globals()).map(|_| ()).map_err(|e| format!("{}", e.without_diagnostic()));
+            let e = sl::emit_count();
+            r.evals += 1;
+            let what = format!("round {i} of {n} on a reused evaluator (earlier rounds ended with a cancellation error)");
+            match budget {
+                None => {
+                    let k = ks[i];
+                    match &res {
+                        Ok(()) => r.fail("cancel-ignored", format!("{what}: cancellation requested at emit {k} of {} but evaluation completed", w.e)),
+                        Err(m) => {
+                            if !m.to_lowercase().contains("cancel") {
+                                r.fail("cancel-wrong-error", format!("{what}: expected the cancellation error, got {m}"));
+                            }
+                            if e > k + 1001 {
+                                r.fail("cancel-late", format!("{what}: cancellation requested at emit {k}; {e} emits ran (more than the check interval later)"));
+                            }
+                        }
+                    }
+                }
+                Some(b) => {
+                    let want_fail = t0 + w.t > b;
+                    match (&res, want_fail) {
+                        (Ok(()), true) => r.fail("tick-limit-not-enforced", format!("{what}: {t0} ticks so far + T={} > budget {b} but evaluation succeeded", w.t)),
+                        (Err(m), false) => r.fail("tick-limit-too-early", format!("{what}: {t0} + T={} <= budget {b} but evaluation failed: {m}", w.t)),
+                        (Err(m), true) => {
+                            if !m.contains("tick") {
+                                r.fail("tick-limit-wrong-error", format!("{what}: expected the tick-limit error, got {m}"));
+                            }
+                            if t0 + e > b + 1001 {
+                                r.fail("tick-limit-late", format!("{what}: budget {b}, {t0} ticks before the round, {e} emits ran in it: more than budget + check interval"));
+                            }
+                        }
+                        (Ok(()), false) => {
+                            if eval.get_total_tick_count() != t0 + w.t {
+                                r.fail("tick-count-model", format!("{what}: total tick count {} but {t0} + {} expected", eval.get_total_tick_count(), w.t));
+                            }
+                        }
+                    }
+                }
+            }
+            if res.is_err() && eval.call_stack_count() != 0 {
+                r.fail("not-reusable", format!("{what}: call stack not empty after the error"));
+            }
+        }
+    });
 }
 
 pub fn calibrate() {
@@ -443,6 +534,36 @@ impl Prop for C15 {
             }
             r.nontrivial.push(fnv(format!("{}|cancel{k}", r.sample).as_bytes()));
             r.label("cancel");
+        }
+        // evaluator reuse: limits still honoured after an earlier limit error on the same evaluator
+        if ch.chance(1, 2) {
+            let rounds = 2 + ch.idx(3);
+            let mut ws: Vec<Workload> = Vec::new();
+            let mut ks: Vec<u64> = Vec::new();
+            for _ in 0..rounds {
+                let mut wi = gen_workload(ch);
+                let mut guard = 0;
+                while wi.e == 0 && guard < 4 {
+                    wi = gen_workload(ch);
+                    guard += 1;
+                }
+                if wi.e == 0 {
+                    wi = w.clone();
+                }
+                if wi.e == 0 {
+                    break;
+                }
+                let k = 1 + ch.below(wi.e.min(3000) as u32) as u64;
+                ks.push(k);
+                ws.push(wi);
+            }
+            if ws.len() >= 2 {
+                let cands: Vec<i64> = vec![-1001, -1000, -999, -2, -1, 0, 1];
+                let last_budget = if ch.bool() { Some(*ch.pick(&cands)) } else { None };
+                run_reuse(&ws, &ks, last_budget, &mut r);
+                r.label("evaluator_reuse");
+                r.nontrivial.push(fnv(format!("{}|reuse{ks:?}{last_budget:?}", r.sample).as_bytes()));
+            }
         }
         r.evals = r.evals.max(1);
         r
